@@ -89,7 +89,7 @@ func (c *CallInfo) IsIfaceMethod(pkgPath, iface, method string) bool {
 		return false
 	}
 	n := NamedOf(c.IfaceRecv)
-	return n != nil && n.Obj().Pkg() != nil && n.Obj().Pkg().Path() == pkgPath && n.Obj().Name() == iface
+	return n != nil && n.Obj().Pkg() != nil && n.Obj().Pkg().Path() == pkgPath && TName(n) == iface
 }
 
 // MethodOn reports a call (static or invoke) of a method named `method` whose
@@ -102,7 +102,7 @@ func (c *CallInfo) MethodOn(pkgPath, typ, method string) bool {
 		return false
 	}
 	n := NamedOf(c.Static.Signature.Recv().Type())
-	return n != nil && n.Obj().Pkg() != nil && n.Obj().Pkg().Path() == pkgPath && n.Obj().Name() == typ
+	return n != nil && n.Obj().Pkg() != nil && n.Obj().Pkg().Path() == pkgPath && TName(n) == typ
 }
 
 // CalleeName is a printable name of the call target.
@@ -145,7 +145,7 @@ func NamedOf(t types.Type) *types.Named {
 // TypeIs reports whether t (pointers stripped) is the named type pkgPath.name.
 func TypeIs(t types.Type, pkgPath, name string) bool {
 	n := NamedOf(t)
-	return n != nil && n.Obj().Pkg() != nil && n.Obj().Pkg().Path() == pkgPath && n.Obj().Name() == name
+	return n != nil && n.Obj().Pkg() != nil && n.Obj().Pkg().Path() == pkgPath && TName(n) == name
 }
 
 // AllCalls lists all call instructions (call, go, defer) of a function.
@@ -662,12 +662,12 @@ func FieldName(v ssa.Value) (structName, fieldName string, ok bool) {
 	n := NamedOf(t)
 	name := ""
 	if n != nil {
-		name = n.Obj().Name()
+		name = TName(n)
 		if n.Obj().Pkg() != nil {
 			name = n.Obj().Pkg().Name() + "." + name
 		}
 	}
-	return name, st.Field(idx).Name(), true
+	return name, VarName(st.Field(idx)), true
 }
 
 // Referrers returns the instructions that use v (nil-safe).
